@@ -277,4 +277,36 @@ def run(tier):
                        % (", ".join(sorted(only_a)), ", ".join(sorted(only_b)), ", ".join(sorted(we))))
     # ---- S8: a non-empty set of imports the host still has to supply has exactly one outcome
     need_imports_only_outcome(fx, ck)
+    # S9 nested-module isolation: a module that can be instantiated in the middle of another module's body keeps that module's exports
+    ck.rule("S9.nested-module-isolation", "a function that runs a module body and drains Interpreter.exports, and is reachable from the opcode interpreter, "
+                                          "sets the importer's export table aside before the run", floor=1)
+    import exits as E
+    drains = []
+    for p, f in sorted(fx.fns.items()):
+        if f.closure or not p.startswith("interpreter::Interpreter::"):
+            continue
+        dr = [bi for bi, t in f.calls() if (t[1].get("d") or "").endswith(("HashMap::<K, V, S, A>::drain", "mem::take")) and t[2] and t[2][0][0] in ("c", "m")
+              and (E.field_of_ref(f, t[2][0][1][0]) or (0, 0, 0))[2] == "exports" and (t[1].get("d") or "").endswith("drain")]
+        if dr:
+            drains.append((f, dr))
+    ck.anchor(bool(drains), "functions that drain Interpreter.exports into a namespace object")
+    exec_op = [p for p in fx.fns if p.endswith("BytecodeVM::execute_op")]
+    reach = M.reachable_fns(fx, exec_op) if exec_op else set()
+    runs_body = {p for p in fx.fns if p.endswith(("Interpreter::execute_program_bytecode", "Interpreter::run_bytecode", "BytecodeVM::run"))}
+    for f, dr in drains:
+        lazily = f.path in reach
+        run_sites = [bi for bi, t in f.calls() if t[1].get("d") in runs_body]
+        if not run_sites:
+            ck.instance("S9.nested-module-isolation", "%s (drains exports of a body run elsewhere)" % f.path, F.short_span(f.span), nontrivial=False)
+            continue
+        takes = [bi for bi, t in f.calls() if (t[1].get("d") or "").endswith("mem::take") and t[2] and t[2][0][0] in ("c", "m")
+                 and (E.field_of_ref(f, t[2][0][1][0]) or (0, 0, 0))[2] == "exports"]
+        ok = (not lazily) or any(all(f.dominates(tb, rb) for rb in run_sites) for tb in takes)
+        ck.instance("S9.nested-module-isolation", "%s: %s" % (f.path, "reachable from execute_op; exports set aside before the body runs" if lazily
+                                                              else "runs before any module body (not reachable from execute_op)"), F.short_span(f.span), ok=ok)
+        if not ok:
+            ck.finding("S9.nested-module-isolation", "S9.nested-module-isolation/%s" % f.path, F.short_span(f.span),
+                       "`%s` can run in the middle of another module's body (it is reachable from the opcode interpreter through resolve_module) and "
+                       "drains `Interpreter.exports` afterwards without having set the importer's table aside first: the exports the importer recorded "
+                       "before `export { x } from \"lib\"` end up on the library's namespace object" % f.path)
     return ck.finish()
